@@ -129,6 +129,21 @@ def run_program(ck, rng, meshes, grids, prog, centred, lead, routes, stats, mode
     cur_grid, cur_fam, cur_gen = g, 0, 0
     mops, mexpect = [], []
     dims0 = dc.dims(a)
+    # deep copies must carry an INDEPENDENT grid: an in-place write through the copy's grid leaves the original's alone
+    try:
+        for mk in (lambda x: x.copy(), lambda x: x.copy(data=np.asarray(x.values) + 1.0)):
+            tmp = mk(a)
+            keep_lat = np.array(a.uxgrid.node_lat.values)
+            keep_fn = np.array(a.uxgrid.face_node_connectivity.values)
+            tmp.uxgrid.node_lat.values[:] = tmp.uxgrid.node_lat.values * 0.5
+            tmp.uxgrid.face_node_connectivity.values[0, 0] = tmp.uxgrid.face_node_connectivity.values[0, 1]
+            if not (np.array_equal(keep_lat, a.uxgrid.node_lat.values) and np.array_equal(keep_fn, a.uxgrid.face_node_connectivity.values)):
+                ck.fail("deep_copy_grid_not_independent", {"meshes": [{"nodes": m.nodes, "faces": m.faces} for m in meshes],
+                                                           "centred": centred, "lead": lead, "program": []}, {"op": "copy_deep"})
+                a.uxgrid.node_lat.values[:] = keep_lat
+                a.uxgrid.face_node_connectivity.values[:] = keep_fn
+    except Exception as ex:
+        ck.fail("raises", {"program": [["x", "copy_deep"]]}, {"op": "copy_deep_probe"}, detail=repr(ex))
     case = {"meshes": [{"nodes": m.nodes, "faces": m.faces} for m in meshes], "centred": centred, "lead": lead,
             "program": [list(p) for p in prog]}
     for step, op in enumerate(prog):
@@ -189,8 +204,14 @@ def run_program(ck, rng, meshes, grids, prog, centred, lead, routes, stats, mode
             if kind in ("isel_grid", "subset"):
                 if kind == "isel_grid":
                     cnt = element_counts(a.uxgrid)[gdim]
-                    idx = sorted(rng.sample(range(cnt), rng.randrange(1, min(cnt, 4) + 1)))
+                    idx = rng.sample(range(cnt), rng.randrange(1, min(cnt, 4) + 1))     # unsorted on purpose
                     r = a.isel(**{gdim: idx})
+                    if gdim == "n_face":
+                        # the subset keeps the caller's face order, so the values are plain positional indexing
+                        want = np.asarray(a.values).take(idx, axis=list(a.dims).index(gdim))
+                        if np.asarray(r.values).shape != want.shape or not np.array_equal(np.asarray(r.values), want, equal_nan=True):
+                            ck.fail("values_differ_from_plain_xarray", case_s, dict(info, op="isel_grid_faces"),
+                                    detail="isel(n_face=%s)" % idx)
                 else:
                     el = {"n_face": "face centers", "n_node": "nodes", "n_edge": "edge centers"}[gdim]
                     r = a.subset.nearest_neighbor((rng.uniform(-170, 170), rng.uniform(-80, 80)), 2, element=el)
